@@ -116,6 +116,20 @@ theorem dropWhile_all_gt {c : T} : ∀ (lst : List T), lst.Pairwise lt → (∀ 
       · exact hch
       · exact lt_trans hch ((List.pairwise_cons.mp hp).1 x hx)
 
+theorem takeWhile_all {c : T} : ∀ (lst : List T), ∀ a ∈ lst.takeWhile (fun x => firstLt x.o.ckey c.o.ckey), lt a c := by
+  intro lst
+  induction lst with
+  | nil => intro a ha; cases ha
+  | cons h tl ih =>
+    intro a ha
+    simp only [List.takeWhile] at ha
+    split at ha
+    · rename_i hp
+      rcases List.mem_cons.mp ha with rfl | ha
+      · exact hp
+      · exact ih a ha
+    · cases ha
+
 theorem putback_sorted : ∀ (taken lst : List T), lst.Pairwise lt → taken.Pairwise lt →
     (∀ x ∈ lst, ∀ t ∈ taken, lt x t ∨ lt t x) → (putback lst taken).Pairwise lt := by
   intro taken
@@ -138,17 +152,351 @@ theorem putback_sorted : ∀ (taken lst : List T), lst.Pairwise lt → taken.Pai
       · intro x hx t ht'
         rcases List.mem_cons.mp hx with rfl | hx
         · exact Or.inl (htc.1 t ht')
-        · exact htot x (List.mem_of_mem_dropWhile hx) t (by simp [ht'])
+        · exact htot x ((List.dropWhile_sublist _).subset hx) t (by simp [ht'])
     refine List.pairwise_append.mpr ⟨hp3.1, hrec, ?_⟩
     intro a ha b hb
     have hac : lt a c := by
-      have := List.mem_takeWhile_imp ha
-      simpa [lt] using this
+      exact takeWhile_all _ a ha
     have hb' := (putback_perm cs _).mem_iff.mp hb
     rcases List.mem_append.mp hb' with hb' | hb'
     · rcases List.mem_cons.mp hb' with rfl | hb'
       · exact hac
       · exact hp3.2.2 a ha b hb'
     · exact lt_trans hac (htc.1 b hb')
+
+
+/-! ### ordered trees and the exactness of the put-back -/
+
+/-- children ordered by the first bit of their complete cpuset, no offline / disallowed bits below the root, recursively -/
+inductive Ord : T → Prop
+  | mk {o : IObj} {kids : List T} :
+      kids.Pairwise lt → (∀ c ∈ kids, c.o.key = c.o.ckey) → (∀ c ∈ kids, Ord c) → Ord (.node o kids)
+
+theorem Ord.pw {o : IObj} {kids : List T} (h : Ord (.node o kids)) : kids.Pairwise lt := by cases h; assumption
+theorem Ord.keq {o : IObj} {kids : List T} (h : Ord (.node o kids)) : ∀ c ∈ kids, c.o.key = c.o.ckey := by cases h; assumption
+theorem Ord.kids {o : IObj} {kids : List T} (h : Ord (.node o kids)) : ∀ c ∈ kids, Ord c := by cases h; assumption
+
+/-- a child kept before the remembered position starts below every child taken by OBJ -/
+theorem lt_of_before_putp {k0 : Nat} {a b : T} (hf : firstLt k0 a.o.key = false) (hs : sub b.o.key k0) (hb : b.o.key ≠ 0)
+    (hd : DJ a b) (ha : a.o.key = a.o.ckey) (hbk : b.o.key = b.o.ckey) : lt a b := by
+  have hk0 : k0 ≠ 0 := by
+    intro hk; unfold sub at hs; rw [hk] at hs; simp at hs; exact hb hs.symm
+  unfold firstLt at hf
+  simp only [Bool.and_eq_false_iff, bne_eq_false_iff_eq, Bool.or_eq_false_iff, beq_eq_false_iff_ne, ne_eq,
+    decide_eq_false_iff_not, Nat.not_lt] at hf
+  rcases hf with hf | hf
+  · exact absurd hf hk0
+  · have h1 := tz_le_of_sub hs hb
+    have h2 := tz_ne_of_dj hd hf.1 hb
+    unfold lt firstLt
+    rw [← ha, ← hbk]
+    simp only [Bool.and_eq_true, bne_iff_ne, ne_eq, Bool.or_eq_true, beq_iff_eq, decide_eq_true_eq]
+    exact ⟨hf.1, Or.inr (by omega)⟩
+
+theorem insLoop_failed (N : Nat)
+    (IH : ∀ c : T, size c < N → ∀ obj : IObj, Lam c → Ord c → sub obj.key c.o.key → ∀ c', ins obj c = .failed c' → c' = c)
+    (co : IObj) (kids : List T) (k0 : Nat) (hkids : kids.Pairwise lt) :
+    ∀ (rest before taken : List T) (putp : Option Nat) (obj : IObj), obj.key = k0 →
+      ((before ++ taken ++ rest).Perm kids ∨ ∃ d ∈ taken, d.o.key = k0) →
+      (kids = before ++ rest ∨ taken ≠ []) →
+      (∀ c ∈ taken, sub c.o.key k0 ∧ c.o.key ≠ 0) →
+      (∀ d ∈ taken, ∀ c ∈ rest, DJ d c) → (∀ a ∈ before, ∀ d ∈ taken, DJ a d) → (before ++ rest).Pairwise DJ →
+      (before ++ rest).Pairwise lt → taken.Pairwise lt → (∀ t ∈ taken, ∀ x ∈ rest, lt t x) →
+      (∀ x ∈ before, ∀ t ∈ taken, lt x t ∨ lt t x) →
+      (∀ a ∈ before.take (putp.getD before.length), firstLt k0 a.o.key = false) → (∀ i, putp = some i → i ≤ before.length) →
+      (∀ c ∈ before ++ taken ++ rest, c.o.key = c.o.ckey) →
+      (∀ c ∈ rest, Lam c ∧ Ord c ∧ size c < N) →
+      ∀ t', insLoop obj co before taken putp rest = .failed t' → t' = .node co kids := by
+  intro rest
+  induction rest with
+  | nil =>
+    intro before taken putp obj _ _ _ _ _ _ _ _ _ _ _ _ _ _ _ t' h
+    simp only [insLoop] at h
+    cases h
+  | cons c rest ih =>
+    intro before taken putp obj hk hperm hshape htak hcross hbt hdj hS1 hS2 hS3 hS4 hS5 hS6 hkeq hrest t' h
+    cases c with
+    | node ko kk =>
+    simp only [insLoop] at h
+    have hp := List.pairwise_append.mp hS1
+    have hpc := List.pairwise_cons.mp hp.2.1
+    have hq := List.pairwise_append.mp hdj
+    have hqc := List.pairwise_cons.mp hq.2.1
+    cases hd : decide1 obj ko with
+    | merge o' =>
+      rw [hd] at h; simp only [] at h
+      split at h <;> cases h
+    | recurse =>
+      rw [hd] at h; simp only [] at h
+      split at h
+      · rename_i hte
+        have ht : taken = [] := by simpa using hte
+        subst ht
+        have hkk : kids = before ++ T.node ko kk :: rest := by
+          rcases hshape with h' | h'
+          · exact h'
+          · exact absurd rfl h'
+        have hc := hrest (T.node ko kk) (by simp)
+        cases hr : ins obj (T.node ko kk) with
+        | failed c' =>
+          rw [hr] at h
+          simp only [Res.wrap] at h
+          injection h with h
+          rw [← h, IH _ hc.2.2 obj hc.1 hc.2.1 (decide1_recurse hd).1 c' hr, hkk]
+        | inserted c' => rw [hr] at h; simp only [Res.wrap] at h; cases h
+        | merged c' m => rw [hr] at h; simp only [Res.wrap] at h; cases h
+        | stuck => rw [hr] at h; simp only [Res.wrap] at h; cases h
+      · cases h
+    | fail =>
+      rw [hd] at h; simp only [] at h
+      injection h with h
+      subst h
+      congr 1
+      -- no child with OBJ's own set was taken: it would be disjoint from the intersecting child
+      have hperm' : (before ++ taken ++ T.node ko kk :: rest).Perm kids := by
+        rcases hperm with h' | ⟨d, hd', hdk⟩
+        · exact h'
+        · exfalso
+          have : DJ d (T.node ko kk) := hcross d hd' _ (by simp)
+          exact decide1_fail hd (by rw [hk, ← hdk]; exact this)
+      have hcur : (before ++ T.node ko kk :: rest).Pairwise lt := hS1
+      have htot : ∀ x ∈ before ++ T.node ko kk :: rest, ∀ t ∈ taken, lt x t ∨ lt t x := by
+        intro x hx t ht
+        rcases List.mem_append.mp hx with hx | hx
+        · exact hS4 x hx t ht
+        · exact Or.inr (hS3 t ht x hx)
+      have hR : ∀ R : List T, R.Pairwise lt → R.Perm ((before ++ T.node ko kk :: rest) ++ taken) → R = kids := by
+        intro R hs hpm
+        apply sorted_perm_eq R kids hs hkids
+        refine hpm.trans (List.Perm.trans ?_ hperm')
+        rw [List.append_assoc, List.append_assoc]
+        exact List.Perm.append_left _ List.perm_append_comm
+      cases putp with
+      | none =>
+        exact hR _ (putback_sorted taken _ hcur hS2 htot) (putback_perm taken _)
+      | some i =>
+        have hi : i ≤ before.length := hS6 i rfl
+        apply hR
+        · have hsplit : ((before ++ T.node ko kk :: rest).take i ++ (before ++ T.node ko kk :: rest).drop i).Pairwise lt := by
+            rw [List.take_append_drop]; exact hcur
+          have h3 := List.pairwise_append.mp hsplit
+          refine List.pairwise_append.mpr ⟨h3.1, ?_, ?_⟩
+          · exact putback_sorted taken _ h3.2.1 hS2 (fun x hx t ht => htot x (List.mem_of_mem_drop hx) t ht)
+          · intro a ha b hb
+            have hb' := (putback_perm taken _).mem_iff.mp hb
+            rcases List.mem_append.mp hb' with hb' | hb'
+            · exact h3.2.2 a ha b hb'
+            · have ha' : a ∈ before.take i := by
+                rw [List.take_append_of_le_length hi] at ha; exact ha
+              have hf := hS5 a (by simpa using ha')
+              have hab := hbt a (List.mem_of_mem_take ha') b hb'
+              exact lt_of_before_putp hf (htak b hb').1 (htak b hb').2 hab
+                (hkeq a (by simp [List.mem_of_mem_take ha'])) (hkeq b (by simp [hb']))
+        · have := List.Perm.append_left ((before ++ T.node ko kk :: rest).take i) (putback_perm taken ((before ++ T.node ko kk :: rest).drop i))
+          rw [← List.append_assoc, List.take_append_drop] at this
+          exact this
+    | differ =>
+      rw [hd] at h; simp only [] at h
+      have hdj1 := decide1_differ hd
+      refine ih (before ++ [T.node ko kk]) taken _ obj hk ?_ ?_ htak ?_ ?_ ?_ ?_ hS2 ?_ ?_ ?_ ?_ ?_ ?_ t' h
+      · rcases hperm with h' | h'
+        · left
+          refine List.Perm.trans ?_ h'
+          simp only [List.append_assoc, List.cons_append, List.nil_append]
+          exact List.Perm.append_left _ (List.perm_middle.symm)
+        · exact Or.inr h'
+      · rcases hshape with h' | h'
+        · left; simp [h']
+        · exact Or.inr h'
+      · intro d hd' x hx; exact hcross d hd' x (by simp [hx])
+      · intro a ha d hd'
+        rcases List.mem_append.mp ha with ha | ha
+        · exact hbt a ha d hd'
+        · simp at ha; subst ha; exact DJ_symm (hcross d hd' _ (by simp))
+      · simpa using hdj
+      · simpa using hS1
+      · intro t ht x hx; exact hS3 t ht x (by simp [hx])
+      · intro x hx t ht
+        rcases List.mem_append.mp hx with hx | hx
+        · exact hS4 x hx t ht
+        · simp at hx; subst hx; exact Or.inr (hS3 t ht _ (by simp))
+      · -- the remembered position
+        intro a ha
+        cases putp with
+        | some i =>
+          have hi := hS6 i rfl
+          simp only [Option.isNone_some, Bool.false_and, Bool.false_eq_true, if_false, Option.getD_some] at ha
+          rw [List.take_append_of_le_length hi] at ha
+          exact hS5 a (by simpa using ha)
+        | none =>
+          simp only [Option.isNone_none, Bool.true_and] at ha
+          by_cases hfl : firstLt obj.key ko.key = true
+          · simp only [hfl, if_true, Option.getD_some] at ha
+            rw [List.take_append_of_le_length (Nat.le_refl _), List.take_length] at ha
+            exact hS5 a (by simpa using ha)
+          · simp only [hfl, Bool.false_eq_true, if_false, Option.getD_none] at ha
+            rw [List.take_of_length_le (Nat.le_refl _)] at ha
+            rcases List.mem_append.mp ha with ha | ha
+            · exact hS5 a (by simpa using ha)
+            · simp at ha; subst ha; rw [← hk]; show firstLt obj.key ko.key = false; simpa using hfl
+      · intro i hi
+        cases putp with
+        | some j =>
+          simp only [Option.isNone_some, Bool.false_and, Bool.false_eq_true, if_false] at hi
+          have := hS6 j rfl; injection hi with hi; subst hi; simp; omega
+        | none =>
+          simp only [Option.isNone_none, Bool.true_and] at hi
+          split at hi
+          · injection hi with hi; subst hi; simp
+          · cases hi
+      · intro x hx; apply hkeq
+        simp only [List.mem_append, List.mem_cons, List.not_mem_nil, or_false] at hx ⊢
+        rcases hx with ((h' | h') | h') | h'
+        · exact Or.inl (Or.inl h')
+        · exact Or.inr (Or.inl h')
+        · exact Or.inl (Or.inr h')
+        · exact Or.inr (Or.inr h')
+      · intro x hx; exact hrest x (by simp [hx])
+    | contain eq =>
+      rw [hd] at h; simp only [] at h
+      have hc := decide1_contain hd
+      have step : ∀ ko' obj' : IObj, ko'.key = ko.key → ko'.ckey = ko.ckey → obj'.key = k0 →
+          ((ko' = ko) ∨ ko'.key = k0) →
+          insLoop obj' co before (taken ++ [T.node ko' kk]) putp rest = .failed t' → t' = T.node co kids := by
+        intro ko' obj' hkk hck hk' hwhich h'
+        have hlt1 : ∀ x : T, lt (T.node ko kk) x → lt (T.node ko' kk) x := by
+          intro x hx; show firstLt ko'.ckey x.o.ckey = true; rw [hck]; exact hx
+        have hlt2 : ∀ x : T, lt x (T.node ko kk) → lt x (T.node ko' kk) := by
+          intro x hx; show firstLt x.o.ckey ko'.ckey = true; rw [hck]; exact hx
+        have hDJ : ∀ x : T, DJ (T.node ko kk) x → DJ (T.node ko' kk) x := by
+          intro x hx; show dj ko'.key x.o.key; rw [hkk]; exact hx
+        refine ih before (taken ++ [T.node ko' kk]) putp obj' hk' ?_ ?_ ?_ ?_ ?_ ?_ ?_ ?_ ?_ ?_ hS5 hS6 ?_ ?_ t' h'
+        · rcases hwhich with rfl | hk0'
+          · rcases hperm with hp' | ⟨d, hd', hdk⟩
+            · left
+              have e : before ++ (taken ++ [T.node ko' kk]) ++ rest = before ++ taken ++ T.node ko' kk :: rest := by simp
+              rw [e]; exact hp'
+            · exact Or.inr ⟨d, by simp [hd'], hdk⟩
+          · exact Or.inr ⟨T.node ko' kk, by simp, hk0'⟩
+        · right; simp
+        · intro x hx
+          rcases List.mem_append.mp hx with hx | hx
+          · exact htak x hx
+          · simp at hx; subst hx; show sub ko'.key k0 ∧ ko'.key ≠ 0; rw [hkk, ← hk]; exact ⟨hc.1, hc.2.1⟩
+        · intro d hd' x hx
+          rcases List.mem_append.mp hd' with hd' | hd'
+          · exact hcross d hd' x (by simp [hx])
+          · simp at hd'; subst hd'; exact hDJ x (hqc.1 x hx)
+        · intro a ha d hd'
+          rcases List.mem_append.mp hd' with hd' | hd'
+          · exact hbt a ha d hd'
+          · simp at hd'; subst hd'; exact DJ_symm (hDJ a (DJ_symm (hq.2.2 a ha _ (by simp))))
+        · exact List.pairwise_append.mpr ⟨hq.1, hqc.2, fun a ha b hb => hq.2.2 a ha b (by simp [hb])⟩
+        · exact List.pairwise_append.mpr ⟨hp.1, hpc.2, fun a ha b hb => hp.2.2 a ha b (by simp [hb])⟩
+        · refine List.pairwise_append.mpr ⟨hS2, by simp, ?_⟩
+          intro a ha b hb
+          simp at hb; subst hb
+          exact hlt2 a (hS3 a ha _ (by simp))
+        · intro t ht x hx
+          rcases List.mem_append.mp ht with ht | ht
+          · exact hS3 t ht x (by simp [hx])
+          · simp at ht; subst ht; exact hlt1 x (hpc.1 x hx)
+        · intro x hx t ht
+          rcases List.mem_append.mp ht with ht | ht
+          · exact hS4 x hx t ht
+          · simp at ht; subst ht; exact Or.inl (hlt2 x (hp.2.2 x hx _ (by simp)))
+        · intro x hx
+          simp only [List.mem_append, List.mem_cons, List.not_mem_nil, or_false] at hx
+          rcases hx with (h'' | (h'' | h'')) | h''
+          · exact hkeq x (by simp [h''])
+          · exact hkeq x (by simp [h''])
+          · subst h''; show ko'.key = ko'.ckey; rw [hkk, hck]; exact hkeq (T.node ko kk) (by simp)
+          · exact hkeq x (by simp [h''])
+        · intro x hx; exact hrest x (by simp [hx])
+      cases eq with
+      | false => exact step ko obj rfl rfl hk (Or.inl rfl) h
+      | true =>
+        exact step { ko with mem := [] } { obj with mem := ko.mem } rfl rfl hk
+          (Or.inr (by show ko.key = k0; rw [← hk]; exact (hc.2.2 rfl).symm)) h
+
+
+theorem ins_failed_aux : ∀ (N : Nat) (t : T), size t < N → ∀ obj : IObj, Lam t → Ord t → sub obj.key t.o.key →
+    ∀ t', ins obj t = .failed t' → t' = t := by
+  intro N
+  induction N with
+  | zero => intro t h; exact absurd h (Nat.not_lt_zero _)
+  | succ N ih =>
+    intro t hsz obj hL hO _ t' h
+    cases t with
+    | node co kids =>
+    simp only [ins] at h
+    have hsz' : ∀ c ∈ kids, size c < N := by
+      intro c hc
+      have := sizeL_mem hc
+      rw [size_node] at hsz; omega
+    refine insLoop_failed N ih co kids obj.key hO.pw kids [] [] none obj rfl (Or.inl (by simp)) (Or.inl (by simp))
+      (fun c hc => by cases hc) (fun d hd => by cases hd) (fun a ha => by cases ha) (by simpa using hL.kids_pw)
+      (by simpa using hO.pw) List.Pairwise.nil (fun t ht => by cases ht) (fun x hx => by cases hx)
+      (fun a ha => by simp at ha) (fun i hi => by cases hi) (fun c hc => hO.keq c (by simpa using hc))
+      (fun c hc => ⟨hL.kids_lam c hc, hO.kids c hc, hsz' c hc⟩) t' h
+
+/-- **A refused insertion changes nothing.**  On a laminar tree whose children lists are ordered by first bit and whose objects
+have no offline / disallowed bits, an insertion that fails on an intersection returns exactly the original tree: every child
+taken by the new object is put back at its original position, at every level of the recursion. -/
+theorem ins_failed_unchanged (t : T) (obj : IObj) (hL : Lam t) (hO : Ord t) (hs : sub obj.key t.o.key) (t' : T)
+    (h : ins obj t = .failed t') : t' = t :=
+  ins_failed_aux (size t + 1) t (Nat.lt_succ_self _) obj hL hO hs t' h
+
+
+/-! ### executable check of `Ord` -/
+
+def pwLtB : List T → Bool
+  | [] => true
+  | c :: cs => cs.all (fun x => firstLt c.o.ckey x.o.ckey) && pwLtB cs
+
+mutual
+def ordB : T → Bool
+  | .node _ kids => pwLtB kids && kids.all (fun c => c.o.key == c.o.ckey) && ordBL kids
+def ordBL : List T → Bool
+  | [] => true
+  | c :: cs => ordB c && ordBL cs
+end
+
+theorem pwLtB_sound : ∀ l : List T, pwLtB l = true → l.Pairwise lt := by
+  intro l
+  induction l with
+  | nil => intro _; exact List.Pairwise.nil
+  | cons c cs ih =>
+    intro h
+    simp only [pwLtB, Bool.and_eq_true, List.all_eq_true] at h
+    exact List.pairwise_cons.mpr ⟨fun x hx => h.1 x hx, ih h.2⟩
+
+theorem ordBL_mem : ∀ (l : List T), ordBL l = true → ∀ c ∈ l, ordB c = true := by
+  intro l
+  induction l with
+  | nil => intro _ c hc; cases hc
+  | cons x xs ih =>
+    intro h c hc
+    simp only [ordBL, Bool.and_eq_true] at h
+    rcases List.mem_cons.mp hc with rfl | hc
+    · exact h.1
+    · exact ih h.2 c hc
+
+theorem ordB_sound_aux : ∀ (N : Nat) (t : T), size t < N → ordB t = true → Ord t := by
+  intro N
+  induction N with
+  | zero => intro t h; exact absurd h (Nat.not_lt_zero _)
+  | succ N ih =>
+    intro t hsz h
+    cases t with
+    | node o kids =>
+    simp only [ordB, Bool.and_eq_true, List.all_eq_true, beq_iff_eq] at h
+    refine .mk (pwLtB_sound kids h.1.1) (fun c hc => h.1.2 c hc) ?_
+    intro c hc
+    apply ih c _ (ordBL_mem kids h.2 c hc)
+    have := sizeL_mem hc
+    rw [size_node] at hsz; omega
+
+theorem ordB_sound (t : T) (h : ordB t = true) : Ord t := ordB_sound_aux (size t + 1) t (Nat.lt_succ_self _) h
 
 end Hw.Topo.Ins
